@@ -9,6 +9,7 @@ from ..cfg import handler_classes
 from ..loader import ancestors, parent
 
 CAS = "cli/commands/run/handlers/cassettes.py"
+JUNIT = "cli/commands/run/handlers/junitxml.py"
 
 ENCODERS = {"to_double_quoted", "write_double_quoted", "dumps"}  # json.dumps output is a valid YAML flow scalar
 
@@ -415,7 +416,7 @@ def r3_structured_writers(chk: Check) -> None:
     adds = [c for c in body_calls(har) if last_attr(c) == "add_entry" and isinstance(c.func, ast.Attribute) and dotted(c.func.value) in harv]
     chk.decide(bool(adds), "C16.R3", har, "entries go through har.add_entry", "no add_entry call", har.loc())
     ju = P.func("cli/commands/run/handlers/junitxml.py:JunitXMLHandler.handle_event")
-    chk.decide(any(last_attr(c) == "to_xml_report_file" for c in body_calls(ju)), "C16.R3", ju, "JUnit XML via junit_xml.to_xml_report_file", "XML is not produced by the junit_xml library", ju.loc())
+    chk.decide(any(last_attr(c) == "to_xml_report_file" for f_ in ju.module.functions.values() if not isinstance(f_.node, ast.Lambda) for c in body_calls(f_)), "C16.R3", ju, "JUnit XML via junit_xml.to_xml_report_file", "XML is not produced by the junit_xml library", ju.loc())
     # R4 one entry per interaction: a single loop over recorder.interactions, the entry write is not skippable
     for ref, sink_pred, what in (
         (f"{CAS}:vcr_writer", lambda c: last_attr(c) == "write" and c.args and isinstance(c.args[0], ast.JoinedStr) and "- id:" in unparse(c.args[0], 200), "entry header write"),
@@ -522,7 +523,21 @@ def r6_total_operations(chk: Check) -> None:
                 arg = c.args[0]
                 tainted = isinstance(arg, ast.Name) and any(isinstance(v, ast.Call) and last_attr(v) == "sanitize_url" for v in local_value(fn, arg.id))
                 chk.decide(not tainted, "C16.R6", fn, f"{unparse(c, 60)}", "the sanitized URL (`[Filtered]@host`) is not a parseable URL: urlparse raises ValueError and the writer thread dies", fn.loc(c))
-    if n < 4:
+    # the failure formatter runs inside the JUnit handler (and the CLI summary): decoding the response there must be total too
+    ff = P.func("core/failures.py:format_failures")
+    for a in walk_body(ff.node):
+        if isinstance(a, ast.Attribute) and a.attr == "text" and isinstance(a.ctx, ast.Load) and "response" in unparse(a.value):
+            n += 1
+            tries = [t for t in ancestors(a) if isinstance(t, ast.Try) and any(is_within(a, s_) for s_ in t.body)]
+            caught = {cl.rsplit(".", 1)[-1] for t in tries for h in t.handlers for cl in handler_classes(h)}
+            lookup = bool(caught & {"LookupError", "Exception", "BaseException"})
+            unicode_ = bool(caught & {"UnicodeError", "ValueError", "Exception", "BaseException"})
+            construct = f"{unparse(a)} while formatting a failure"
+            if lookup and unicode_:
+                chk.ok("C16.R6", ff, construct, f"guarded against {sorted(caught)}", ff.loc(a))
+            else:
+                chk.violation("C16.R6", ff, construct, f"Response.text decodes with the charset the server declared; only {sorted(caught) or 'nothing'} is handled: `charset=foobar` raises LookupError and `charset=undefined` UnicodeError (not a UnicodeDecodeError) out of the JUnit handler - the run is aborted with an internal error and junit.xml stays empty", ff.loc(a))
+    if n < 5:
         chk.undecided("C16.R6", "<discovery>", f"sites={n}", "fewer decode/parse sites than confirmed by hand")
 
 
@@ -656,6 +671,34 @@ def r7_handlers(chk: Check) -> None:
             eq = isinstance(n.test, ast.Compare) and isinstance(n.test.ops[0], ast.Eq)
             good = (eq and body_w == ["har_writer"] and else_w == ["vcr_writer"]) or (not eq and body_w == ["vcr_writer"] and else_w == ["har_writer"])
             chk.decide(good, "C16.R7", post, "writers not crossed", "HAR format is written by the VCR writer (or vice versa): the file is not valid JSON / YAML", post.loc(n))
+    # the JUnit document is produced on every way a run can end: `EngineFinished` is not emitted after a FatalError
+    # (into_event_stream returns right after yielding it), but shutdown() runs in the executor's `finally`
+    ju_cls = next((c for c in P.module(JUNIT).classes.values() if "EventHandler" in c.base_names()), None)
+    if ju_cls is None:
+        chk.undecided("C16.R7", JUNIT, "JUnit handler class", "not found", JUNIT)
+    else:
+        def writes_report(f: FuncInfo, depth: int = 0) -> bool:
+            for c in body_calls(f):
+                if last_attr(c) == "to_xml_report_file":
+                    return True
+                if depth < 2 and isinstance(c.func, ast.Attribute) and isinstance(c.func.value, ast.Name) and c.func.value.id == "self":
+                    m = P.resolve_method(ju_cls, c.func.attr)
+                    if m is not None and m is not f and writes_report(m, depth + 1):
+                        return True
+            return False
+
+        sh_ = P.resolve_method(ju_cls, "shutdown")
+        own = sh_ is not None and sh_.qualname.startswith(JUNIT)
+        anywhere = any(writes_report(m_) for m_ in P.module(JUNIT).functions.values() if not isinstance(m_.node, ast.Lambda))
+        if own and writes_report(sh_):  # type: ignore[arg-type]
+            chk.ok("C16.R7", sh_, "the JUnit report is written from shutdown() as well", "", sh_.loc())  # type: ignore[union-attr]
+        elif anywhere:
+            he_ = P.resolve_method(ju_cls, "handle_event")
+            chk.violation("C16.R7", he_ or JUNIT, "the JUnit report is written from shutdown() as well",
+                          "the report file is created (truncated) when the handlers are initialised but written only on EngineFinished: a run that ends with a FatalError (schema cannot be loaded, engine raises) emits no EngineFinished, so junit.xml stays empty - not well-formed XML - while the VCR and HAR writers, which finalise in shutdown(), leave valid files",
+                          (he_.loc() if he_ is not None else JUNIT))
+        else:
+            chk.undecided("C16.R7", JUNIT, "the JUnit report is written from shutdown() as well", "no call of to_xml_report_file found", JUNIT)
 
 
 def rules(tier: str) -> list:  # type: ignore[type-arg]
